@@ -28,7 +28,7 @@ def regenerate():
         # keep the file well-formed so that the model still builds; the program is then certainly not the expected one
         txt = ("(* GENERATED: extraction FAILED: %s *)\nFrom Coq Require Import List.\nFrom Kenlm Require Import C17.PCQueueOps.\n"
                "Import ListNotations.\nDefinition produce_prog : list op := [Opaque 0].\nDefinition consume_prog : list op := [Opaque 0].\n"
-               "Definition ctor_prog : list init := [InitOpaque 0].\n") % str(e).replace("*)", "* )")[:500]
+               "Definition ctor_prog : list init := [InitOpaque 0].\nDefinition wait_on_eintr : eintr_action := EintrOpaque.\n") % str(e).replace("*)", "* )")[:500]
     vlib.write_if_changed(gen, txt)
     return ["Gen/PCQueueProg.v"]
 
@@ -138,6 +138,47 @@ def gen_cases(ctx):
         cases.append("%s %d %d %s %d %d" % (rng.choice(["CHAINS", "CHAINS", "CHAIN"]), blocks, per, ",".join(st), n, rng.below(1 << 30) + 1))
     for _ in range(ctx.pick(25, 300)):
         cases.append("POOL %d %d %d %d" % (rng.range(1, 6), rng.range(1, 5), rng.choice([0, 1, 2, rng.range(0, 300)]), rng.below(1 << 30) + 1))
+    # "fill, then drain": the source runs to completion (data + poison) before any consumer is attached; block_count 2..5 and
+    # data of exactly block_count-1 blocks, one block less, one block more (then the source must park until the drain starts)
+    for _ in range(ctx.pick(40, 500)):
+        blocks = rng.choice([2, 3, 4, 5, rng.range(1, 6)])
+        per = rng.choice([1, 2, 4, 8, rng.range(1, 9)])
+        kind = rng.choice(["CHAINF", "CHAINFS"])
+        dblocks = max(0, blocks - 1 + rng.choice([0, 0, 0, -1, 1, -2, 2]))      # data blocks the source emits
+        if kind == "CHAINF":
+            n = max(0, dblocks * per - rng.choice([0, 0, rng.below(per)]))        # Link source: ceil(n/per) data blocks
+        else:
+            n = max(0, (dblocks - 1) * per + rng.below(per)) if dblocks else 0  # Stream source: n//per + 1 blocks (the last may be empty)
+        st = ",".join(rng.choice(["p", "a%d" % rng.range(1, 9), "s%d" % rng.range(1, 5), "f%d" % rng.range(2, 4)]) for _ in range(rng.choice([0, 0, 1, 2]))) or "-"
+        cases.append("%s %d %d %s %d %d" % (kind, blocks, per, st, n, rng.below(1 << 30) + 1))
+    # signals (no-op handler without SA_RESTART) delivered to threads parked in Produce / Consume, interleaved with the calls
+    for _ in range(ctx.pick(30, 400)):
+        k = rng.choice([1, 1, 2, 3])
+        acts, nthreads, val = [], 0, 1
+        inq, waitp, waitc = 0, 0, 0        # keep at most one producer waiting: which of two blocked producers goes first is not determined
+        for _ in range(rng.range(2, 9)):
+            r = rng.below(10)
+            if r < 3 or nthreads == 0:
+                acts.append("c"); nthreads += 1; waitc += 1
+            elif r < 6 and waitp == 0:
+                acts.append("p%d" % val); val += 1; nthreads += 1; waitp += 1
+            else:
+                acts.append("i%d" % rng.below(nthreads))
+            moved = True
+            while moved:
+                moved = False
+                if waitp and inq < k:
+                    waitp -= 1; inq += 1; moved = True
+                if waitc and inq:
+                    waitc -= 1; inq -= 1; moved = True
+        acts.append("i%d" % rng.below(nthreads))
+        # end balanced so that every thread can finish: add the missing calls
+        np_, nc_ = sum(a[0] == "p" for a in acts), sum(a[0] == "c" for a in acts)
+        while nc_ < np_:                   # consumers first: they unblock a waiting producer
+            acts.append("c"); nc_ += 1
+        while np_ < nc_:
+            acts.append("p%d" % val); val += 1; np_ += 1
+        cases.append("SIG %d %s" % (k, " ".join(acts)))
     # handlers that throw: the pool must end (abort) or handle everything, never drop the request and carry on
     for _ in range(ctx.pick(12, 120)):
         n = rng.choice([1, 2, 5, rng.range(0, 120)])
@@ -154,7 +195,7 @@ def run_cases(exe, cases, timeout=900):
     rest = list(cases)
     restarts = 0
     while rest:
-        if restarts > 8:      # a broken tree: every further case would cost a watchdog period
+        if restarts > 5:      # a broken tree: every further case would cost a watchdog period
             out += ["SKIPPED"] * len(rest)
             break
         rc, o, e = vlib.sh([exe], input=("\n".join(rest) + "\n").encode(), timeout=timeout)
@@ -260,6 +301,61 @@ def oracle_chain(case, out):
     return None
 
 
+def oracle_fill(case, out):
+    """fill-then-drain: the source finishes without a consumer iff its data blocks plus the poison fit (block_count queues of
+    capacity block_count); every queue the chain constructs has capacity block_count"""
+    f = case.split()
+    blocks, per, n = int(f[1]), int(f[2]), int(f[4])
+    d = dict(x.split("=") for x in out.split()[1:] if "=" in x)
+    dblocks = -(-n // per) if f[0] == "CHAINF" else n // per + 1
+    exp = "done" if dblocks + 1 <= blocks else "parked"
+    if d.get("src") != exp:
+        return "fill-then-drain: a source writing %d block(s) then the poison into a chain of block_count %d %s without a consumer; it is %s" % (
+            dblocks, blocks, "must finish" if exp == "done" else "must wait for the drain", d.get("src"))
+    return None
+
+
+def oracle_caps(case, out):
+    blocks = int(case.split()[1])
+    d = dict(x.split("=") for x in out.split()[1:] if "=" in x)
+    caps = d.get("caps", "")
+    if caps and any(c != str(blocks) for c in caps.split(",")):
+        return "the chain constructed PCQueues of capacities [%s]; the chain model and its theorems take every queue to have capacity block_count = %d" % (caps, blocks)
+    return None
+
+
+def oracle_sig(case, out):
+    """the atomic bounded FIFO with threads that each make one call; a signal changes nothing"""
+    f = case.split()
+    k, acts = int(f[1]), f[2:]
+    if not out.startswith("ok "):
+        return out[:300]
+    obs = out[3:].split("|")
+    if len(obs) != len(acts):
+        return "unparsable result: " + out[:200]
+    q, wp, wc, fp, fc, ret = [], [], 0, 0, 0, []
+    for a, o in zip(acts, obs):
+        if a[0] == "p":
+            wp.append(int(a[1:]))
+        elif a[0] == "c":
+            wc += 1
+        moved = True
+        while moved:
+            moved = False
+            if wp and len(q) < k:
+                q.append(wp.pop(0)); fp += 1; moved = True     # blocked producers: which one goes first is not determined; values differ only in order
+            if wc and q:
+                ret.append(q.pop(0)); wc -= 1; fc += 1; moved = True
+        exp_counts = "P%dC%d" % (fp, fc)
+        head, _, vals = o.partition(":")
+        got = sorted(int(v) for v in vals.split(",") if v)
+        if head != exp_counts or got != sorted(ret):
+            return "after action %s: %s returned values %s; the bounded FIFO gives %s %s" % (a, head, got, exp_counts, sorted(ret))
+        if any(v not in [int(x[1:]) for x in acts if x[0] == "p"] for v in got) or len(set(got)) != len(got):
+            return "after action %s: Consume returned a value that was never produced, or the same value twice: %s" % (a, got)
+    return None
+
+
 def oracle_pool(case, out):
     f = case.split()
     n = int(f[3])
@@ -286,6 +382,7 @@ def check(ctx, exe, cases, with_model=True):
     while len(iout) < len(cases):
         iout.append("<no answer>")
     spec_fail, runs = [], []       # runs: (origin case, config prefix, parsed impl run)
+    cap_notes = []                 # white-box: queue capacities read through the constructor hook differ from the model's
     kinds = {}
     dfs_runs = 0
     for c, o in zip(cases, iout):
@@ -294,6 +391,20 @@ def check(ctx, exe, cases, with_model=True):
         f = c.split()
         kind = f[0] + (":" + f[4].split(":")[0] if f[0] == "PCQ" else "")
         kinds[kind] = kinds.get(kind, 0) + 1
+        if f[0] == "SIG":
+            m = oracle_sig(c, o)
+            if m:
+                spec_fail.append(("pcqueue:signal", c, o, m))
+            continue
+        if f[0] in ("CHAINF", "CHAINFS"):
+            m = oracle_chain(c, o) or oracle_fill(c, o)
+            if m:
+                spec_fail.append(("chain:fill-then-drain", c, o, m))
+            elif oracle_caps(c, o):
+                cap_notes.append((c, o, oracle_caps(c, o)))
+            continue
+        if f[0] in ("CHAIN", "CHAINS") and o.startswith("ok ") and oracle_caps(c, o):
+            cap_notes.append((c, o, oracle_caps(c, o)))
         if f[0] in ("CHAIN", "CHAINS"):
             m = oracle_chain(c, o)
             if m:
@@ -357,7 +468,7 @@ def check(ctx, exe, cases, with_model=True):
         except vlib.ModelBroken as e:
             model_broken = str(e)
     # chains and pools: the extracted atomic-FIFO models under their own seed-driven schedules must deliver the same result
-    cp = [(c, o) for c, o in zip(cases, iout) if c.split()[0] in ("CHAIN", "CHAINS", "POOL", "POOLF") and o.startswith("ok ")]
+    cp = [(c, o) for c, o in zip(cases, iout) if c.split()[0] in ("CHAIN", "CHAINS", "CHAINF", "CHAINFS", "SIG", "POOL", "POOLF") and o.startswith("ok ")]
     if with_model and cp and model_broken is None:
         try:
             model = vlib.ocaml_model("C17")
@@ -369,7 +480,11 @@ def check(ctx, exe, cases, with_model=True):
                     if " ".join(o.split()[:2]) != " ".join(m.split()[:2]) or (o.startswith("ok finished") and o.split()[2] != m.split()[2]):
                         mismatches.append((c, c, o, m))
                     continue
-                keys = ("count", "hash", "head") if c.startswith("CHAIN") else ("handled", "dup", "miss", "stray")
+                if c.startswith("SIG"):
+                    if o.strip() != m.strip():
+                        mismatches.append((c, c, o, m))
+                    continue
+                keys = ("count", "hash", "head", "src", "caps") if c.startswith("CHAIN") else ("handled", "dup", "miss", "stray")
                 if not m.startswith("ok") or any(di.get(k) != dm.get(k) for k in keys):
                     mismatches.append((c, c, o, m))
         except vlib.ModelBroken as e:
